@@ -9,7 +9,7 @@ import tempfile
 import threading
 import time
 
-from vlib import schedfuzz, srvharness as SH, watch
+from vlib import targets, schedfuzz, srvharness as SH, watch
 
 PROPERTY = 'C02'
 LEVEL = 'exploration'
@@ -91,6 +91,9 @@ def make_requests(rng, tree, client, n, xtalk=False):
             plan.append((rng.choice(lv)[1], 'sleep', rng.choice([0.0005, 0.002, 0.008])))
         if sw and rng.random() < 0.06:
             plan.append(('SW', rng.choice(['unroutable', 'unroutable', 'badindex']), None))  # the user's switch() fails for this input
+        if rng.random() < 0.03:
+            # an input that cannot be pickled: fine between threads, a failure of this one request at the first process boundary
+            plan.append(('_', 'unpicklable', targets.UNPICKLABLE))
         deadline = 30
         if rng.random() < 0.06:
             deadline = rng.choice([0.0005, 0.003, 0.02])
@@ -120,6 +123,10 @@ def judge(tree, tok, deadline, outcome, viol, obs, where):
     if SH._is_exc_got(got):
         obs['failed_requests'] += 1
     ok, exp = SH.judge_outcome(tree, tok, got)
+    if not ok and any(a == 'unpicklable' for _, a, _ in tok[3]) and SH.has_process(tree) and "'PicklingError', ('vf-unpicklable',)" in repr(got):
+        # somewhere on its way the request met a process boundary; where exactly depends on the queue types the tree was wired with
+        obs['unpicklable_inputs_failed_alone'] = obs.get('unpicklable_inputs_failed_alone', 0) + 1
+        return
     if not ok:
         mech = 'server/wrong-outcome'
         other = _foreign_ids(got, (tok[1], tok[2]))
